@@ -12,16 +12,16 @@ CLAIMED = {
          "Observable snapshot (contents, sizes, refcounts, stats) before a clean drop must equal the one after reopen and the model, for generated histories with reopen/checkpoint at all positions relative to segment boundaries.",
          "stats.index.serialized_size_bytes is excluded (snapshot file size legitimately changes when a reopen replays)."),
  "C03": ("E2", "fault_enumeration", "crash-point enumeration over traced syscalls of generated epoch chains; recovery judged against model of acknowledged ops",
-         "A worker process runs generated histories under an LD_PRELOAD trace shim; every state between two mutating filesystem calls (incl. initialisation, recovery, checkpoint, pruning) is reconstructed and recovered in-process; recovered map must equal acknowledged ops with the in-flight op all-or-nothing; chains continue from crash images.",
+         "A worker process runs generated histories under an LD_PRELOAD trace shim; every state between two mutating filesystem calls (incl. initialisation, recovery, checkpoint, pruning) is reconstructed and recovered in-process; recovered map must equal acknowledged ops with the in-flight op all-or-nothing; chains continue from crash images. A bulk-range part cuts a single remove_range over up to 2600 keys.",
          "Process-kill model (completed calls persist, write calls atomic); trace model validated per run against the real directory and against real kills at sampled cuts."),
  "C04": ("E3", "exploration", "deterministic-schedule exploration (generated programs x generated schedules) with an index->blob invariant at every step",
          "Real threads run generated small concurrent programs under a scheduler that owns every index-lock acquisition and commit/unlink step (hooks, feature verif); at each step every visible key must resolve to an intact blob.",
          "Interleavings are explored at yield-point granularity; random-walk and PCT schedules, not exhaustive."),
  "C05": ("E3", "exploration", "deterministic-schedule exploration + linearizability checking (Wing-Gong search) of recorded histories",
-         "Reader/writer programs under generated schedules; no read may fail or return partial bytes; the history with a final read-all must be linearizable with two-point semantics for remove/remove_range.",
-         "Yield-point granularity; histories <= 12 calls."),
+         "Reader/writer programs under generated schedules (random walk, PCT, preemption at interesting points, explicit context switches) plus a systematic enumeration of all schedules with at most two preemptions / context switches per generated program; no read may fail or return partial bytes; the history with a final read-all must be linearizable with two-point semantics for remove/remove_range. A free-running stress part (atomic-register check, hot-key hammering) covers code between yield points.",
+         "Scheduler: yield-point granularity, histories <= 12 calls; stress part is probabilistic and not deterministically replayable."),
  "C06": ("E1+E2+E3", "exploration", "invariant blake3(file)==path checked after every step / at every crash cut / at every scheduling step; long-lived reader round-trip; trace check: no write-open under cas/",
-         "Sequential histories, every kill cut of traced epoch chains, and every scheduling step of concurrent programs are inspected: each file under cas/ must sit at a canonical path and hash to it; old readers stream original bytes.",
+         "Sequential histories, every kill cut of traced epoch chains, and every scheduling step of concurrent programs are inspected: each file under cas/ must sit at a canonical path and hash to it; old readers stream original bytes. A cross-filesystem shard part (first-level CAS directories symlinked to another filesystem) checks that no blob path is ever opened for writing.",
          "Kill model for crash cuts (write calls atomic)."),
  "C07": ("E1+E3", "exploration", "model-based: cas/ listing == live content set after every sequential step and at the end of every schedule",
          "Directory listing of cas/ and staging/ is compared with the model's live set after every step of generated histories and at quiescence of generated concurrent programs.",
@@ -60,7 +60,7 @@ CLAIMED = {
          "For generated contents and chunkings the committed hash/size/location are compared with values the harness derives independently.",
          "blake3 crate one-shot hashing trusted."),
  "C19": ("in-process", "exploration", "enumeration of all (N_create,N_reopen) pairs and stored versions over generated histories; byte-for-byte directory diff; pre-create differential",
-         "Mismatching opens must fail with a settings error and leave the directory identical; matching opens see the model; pre-created and on-demand directory trees behave identically and the stored choice wins.",
+         "Mismatching opens must fail with a settings error and leave the directory identical; matching opens see the model; pre-created and on-demand directory trees behave identically and the stored choice wins; a creation with a pre-created tree killed at generated points must leave a store that opens and works.",
          "-"),
  "C20": ("E1+E2", "exploration", "independent decoder of the on-disk format applied after every sequential step and at every crash cut",
          "An independent reader parses index and segments strictly after every step and at every kill cut, checks version order/range/no-reuse across restarts and that snapshot+log decode to the acknowledged history.",
@@ -86,7 +86,8 @@ m = {
    "add_only": True,
  },
  "engines": [
-   {"name": "vcheck", "path": "harness/", "serves_properties": sorted(CLAIMED), "kind_free_text": "Rust binary: proptest generators, model, independent on-disk reader, sequential/crash/fault/scheduler engines"},
+   {"name": "vcheck", "path": "harness/", "serves_properties": sorted(CLAIMED), "kind_free_text": "Rust binary: proptest generators, model, independent on-disk reader, sequential (E1), crash/power-loss/fault (E2, LD_PRELOAD shim shim/fsshim.c, fork server), deterministic scheduler + linearizability + stress (E3), in-process enumerations"},
+   {"name": "libfuzzer", "path": "fuzz/", "serves_properties": ["C16"], "kind_free_text": "cargo-fuzz targets wal_op, index_state, blob_path, segment; run by ./check C16 thorough (tools/fuzz_c16.sh)"},
  ],
  "checks": [],
  "not_applicable": [],
